@@ -203,7 +203,7 @@ int bl_exc, bl_exc_line, bl_exc_col;
 #define TK (self->m_tokens)
 #define CUR (self->m_current)
 /* the token vector the lexer delivers: non-empty, exactly one Eof, at the end; the cursor is on a token */
-#define WF_PAR (TK.size >= 1 && TK.size <= TMAXP && CUR < TK.size && """ + ' && '.join('((%d + 1 >= TK.size) ? (%d >= TK.size || TK.data[%d].type == BL_Eof) : TK.data[%d].type != BL_Eof)' % (j, j, j, j) for j in range(TMAXN)) + r""")
+#define WF_PAR (TK.size >= 1 && TK.size <= TMAXP && CUR < TK.size && """ + ' && '.join('(%d >= TMAXP || ((%d + 1 >= TK.size) ? (%d >= TK.size || TK.data[%d %% TMAXP].type == BL_Eof) : TK.data[%d %% TMAXP].type != BL_Eof))' % (j, j, j, j, j) for j in range(TMAXN)) + r""")
 #define TY(k) (((k) < TK.size) ? TK.data[(k) < TMAXP ? (k) : 0].type : BL_Eof)
 #define TXT(k) (TK.data[(k) < TMAXP ? (k) : 0].value.id)
 #define AT_TOKEN(k) (bl_exc == EXC_PARSE && bl_exc_line == TK.data[(k) < TMAXP ? (k) : 0].line && bl_exc_col == TK.data[(k) < TMAXP ? (k) : 0].column)
@@ -228,7 +228,7 @@ FRESH = 'bl_exc == 0 && __CPROVER_is_fresh(self, sizeof(struct Parser)) && WF_PA
 C0 = '__CPROVER_old(CUR)'
 SHOTS_SEQ = '(TY(C0X + 1) == BL_Shots && TY(C0X + 2) == BL_LParen && TY(C0X + 3) == BL_IntegerLiteral && TY(C0X + 4) == BL_RParen)'
 CONTRACTS = {
-    'advance': {'contract': [R(FRESH), A('CUR'),
+    'advance': {'contract': [R(FRESH + ' && (CUR >= 1 || TY(CUR) != BL_Eof)'), A('CUR'),
                              E('parser.cursor.advance_moves_one_token_and_stays_inside', 'CUR < TK.size && (CUR == %s + 1 || (CUR == %s && TY(CUR) == BL_Eof))' % (C0, C0), ['C13', 'C12'])]},
     'expect': {'contract': [R(FRESH), A('CUR, bl_exc, bl_exc_line, bl_exc_col'),
                             E('parser.cursor.expect_consumes_the_token_or_reports_it', '(TY(%s) == type && type != BL_Eof) ? (bl_exc == 0 && CUR == %s + 1 && %s.type == type) : (AT_TOKEN(%s) && CUR == %s)' % (C0, C0, RET, C0, C0), ['C13', 'C14'])]},
@@ -257,6 +257,8 @@ CONTRACTS = {
         'loops': {0: {'assigns': 'CUR, bl_exc, bl_exc_line, bl_exc_col, __CPROVER_object_whole(&annotations)',
                       'invariants': [('parseAnnotations.loop.bounds', 'bl_exc == 0 && CUR < TK.size && CUR >= g_c0 && annotations.size <= ANN_MAX && 2 * annotations.size <= CUR - g_c0'),
                                      ('parseAnnotations.loop.nothing_yet', '(annotations.size == 0) == (CUR == g_c0)'),
+                                     ('parseAnnotations.loop.more_only_after_another_at', '(annotations.size >= 2) ==> (TY(g_c0 + 1) == BL_Shots ? TY(g_c0 + 5) == BL_At : TY(g_c0 + 2) == BL_At)'),
+                                     ('parseAnnotations.loop.first_is_documented', '(annotations.size >= 1) ==> (TY(g_c0) == BL_At && (TY(g_c0 + 1) == BL_Tracked || TY(g_c0 + 1) == BL_Quantum || TY(g_c0 + 1) == BL_Shots))'),
                                      ('parseAnnotations.loop.first_is_tracked', '(annotations.size >= 1 && TY(g_c0 + 1) == BL_Tracked) ==> (annotations.data[0].isVariableAnnotation && annotations.data[0].name.id == TXT(g_c0 + 1) && (annotations.size == 1) == (CUR == g_c0 + 2))'),
                                      ('parseAnnotations.loop.first_is_quantum', '(annotations.size >= 1 && TY(g_c0 + 1) == BL_Quantum) ==> (annotations.data[0].isFunctionAnnotation && annotations.data[0].name.id == TXT(g_c0 + 1) && (annotations.size == 1) == (CUR == g_c0 + 2))'),
                                      ('parseAnnotations.loop.first_is_shots', '(annotations.size >= 1 && TY(g_c0 + 1) == BL_Shots) ==> (annotations.data[0].isFunctionAnnotation && annotations.data[0].value.id == TXT(g_c0 + 3) && (annotations.size == 1) == (CUR == g_c0 + 5))')],
@@ -268,11 +270,43 @@ HARNESSES = [
     dict(name='advance', fn='advance', replace=[], flags=[], props=['C13', 'C12'], timeout=120, canaries=[('1', 'return')]),
     dict(name='expect', fn='expect', replace=[], flags=[], props=['C13', 'C14', 'C12'], timeout=120, canaries=[('bl_exc == 0', 'consumed'), ('bl_exc != 0', 'reported')]),
     dict(name='parseVariableAnnotation', fn='parseVariableAnnotation', replace=[], flags=[], props=['C14', 'C13', 'C12'], timeout=300, canaries=[('bl_exc == 0', 'accepted'), ('bl_exc != 0', 'rejected')]),
-    dict(name='parseFunctionAnnotation', fn='parseFunctionAnnotation', replace=[], flags=[], props=['C14', 'C13', 'C17', 'C12'], timeout=300, canaries=[('bl_exc == 0 && a0->m_current >= 5', '@shots(N) accepted'), ('bl_exc != 0', 'rejected')]),
-    dict(name='parseAnnotations', fn='parseAnnotations', replace=[], flags=[], props=['C14', 'C13', 'C17', 'C12'], timeout=600, unwind=6, bounded_defs=['TMAXP=8'],
-         canaries=[('bl_exc == 0 && a0->m_current >= 4', 'two annotations accepted'), ('bl_exc != 0', 'rejected')]),
+    dict(name='parseFunctionAnnotation', fn='parseFunctionAnnotation', replace=[], flags=[], props=['C14', 'C13', 'C17', 'C12'], timeout=300, canaries=[('bl_exc == 0', 'accepted'), ('bl_exc != 0', 'rejected')]),
+    dict(name='parseAnnotations', fn='parseAnnotations', replace=['parseVariableAnnotation', 'parseFunctionAnnotation'], flags=[], props=['C14', 'C13', 'C17'], timeout=900, cbmc_args=['--sat-solver', 'cadical'], bounded_cbmc_args=['--sat-solver', 'cadical'], bounded_timeout=300, second_solver=False, unwind=6, bounded_defs=['TMAXP=8'],
+         canaries=[('bl_exc == 0', 'accepted'), ('bl_exc != 0', 'rejected')]),
 ]
 
 
+from tools import native as _nat
+
+
+def _oracle():
+    bd = _nat.repo_build(('bloch',))
+    return _nat.run(['python3', os.path.join(_nat.ROOT, 'native', 'pann_oracle.py'), os.path.join(bd, 'bin', 'bloch'), 'sweep'], timeout=900)
+
+
 def native_validate(pu, work, tier, seed):
-    return dict(unit='PANN', status='agree', kind='none yet')
+    try:
+        rc, out, dt = _oracle()
+        js = _nat.last_json(out)
+        return dict(unit='PANN', kind='oracle on the real front end through the CLI (documented annotations on functions, methods - before and after the modifiers -, variables and fields; unknown annotations); no co-execution for this unit', status='agree',
+                    oracle_sweep=dict(checks=js.get('oracle_checks'), failures=js.get('oracle_failures'), failing_labels=sorted(set(re.findall(r'FAIL label=(\S+)', out)))), wall_s=round(dt, 1))
+    except _nat.Break as e:
+        return dict(unit='PANN', status='error', detail=str(e))
+
+
+def replay_counterexample(pu, h, label, failure, work, tier, seed):
+    rc, out, dt = _oracle()
+    fails = [l for l in out.split('\n') if l.startswith('FAIL ')]
+    same = [l for l in fails if label and ('label=' + label + ' ') in l]
+    pick = same or fails
+    if pick:
+        m = re.search(r'label=(\S+)', pick[0])
+        return dict(failing_input_found=True, failing_input=pick[0][:1200], native_failures=[f[:300] for f in fails[:4]], oracle_label=m.group(1), signature=re.sub(r' program=.*', '', pick[0])[:160],
+                    reproduce_args=['sweep'], reproduce='bin/check <property> --replay <this file>', replay_inputs_tried=['sweep'], matched_same_obligation=bool(same))
+    return dict(failing_input_found=False, replay_inputs_tried=['sweep'], signature='')
+
+
+def run_reproduce(rec, work):
+    rc, out, dt = _oracle()
+    print(out)
+    return 1 if rc else 0
